@@ -65,8 +65,13 @@ def _token_line(dialect, token):
 def replay_line(case, cex):
     """replay of any C01 witness: decode the line with the real parse.message and with the reference"""
     from spec import printer_grammar as G
+    notes = ''
+    for prev in cex.get('earlier_lines', []):
+        # lines decoded (and labelled by the rest of the tool) earlier in the same process
+        G.compare(prev)
+        notes = 'after decoding %d earlier line(s), the last of them %r:\n' % (len(cex['earlier_lines']), prev)
     ok, text = G.compare(cex['line'])
-    return (not ok), text
+    return (not ok), notes + text
 
 
 def _witness_loop(Z, x, constraints, to_line, label, rounds=1):
@@ -86,7 +91,7 @@ def _witness_loop(Z, x, constraints, to_line, label, rounds=1):
         line = to_line(plain)
         ok, text = G.compare(line)
         if not ok:
-            return 'cex', {'line': line, 'witness': w, 'query': label}
+            return 'cex', {'line': line, 'earlier_lines': G.relevant_history(line), 'witness': w, 'query': label}
         seen.append(line)
         cons.append(z3.Not(z3.InRe(x, z3.Re(z3.StringVal(w)))))
     return 'ambiguous', seen
@@ -327,6 +332,7 @@ def run_generated(case):
     prods = G.arg_productions(dialect, False)
     n = 0
     samples = []
+    hist = []       # every line decoded so far in this process (a witness is replayed after its two predecessors)
     tricky = [', ', '(', ')', '[', ' -> ', '}', '  -> a#1.b(', '] a@1.b(', 'nil', 'new id ', '', '{x} <1>', ', "', '[0.1]  -> b@2.c(', '#', '@', 'bug #12 @home', ' <7> ', '<conn> ', ' {q} ']
     tricky = [t for t in tricky if '"' not in t or True]
     def strprod(i):
@@ -344,8 +350,9 @@ def run_generated(case):
                     return _res('unknown', Z, t0, detail='could not generate a line for %s,%s' % (k1, k2))
                 n += 1
                 ok, text = G.compare(w)
+                hist.append(w)
                 if not ok:
-                    return _res('cex', Z, t0, cex={'line': w, 'query': 'generated %s line with arguments %s, %s' % (label, k1, k2)}, failed='generated printer line is decoded wrongly')
+                    return _res('cex', Z, t0, cex={'line': w, 'earlier_lines': G.relevant_history(w), 'query': 'generated %s line with arguments %s, %s' % (label, k1, k2)}, failed='generated printer line is decoded wrongly')
                 if len(samples) < 3 and 'str' in (k1, k2):
                     samples.append(w)
     # the longest lists libwayland can print: 20 arguments, every production twice, in two orders
@@ -362,8 +369,9 @@ def run_generated(case):
                 return _res('unknown', Z, t0, detail='could not generate a 20-argument line')
             n += 1
             ok, text = G.compare(w)
+            hist.append(w)
             if not ok:
-                return _res('cex', Z, t0, cex={'line': w, 'query': 'generated %s line with 20 arguments' % label}, failed='generated printer line with 20 arguments is decoded wrongly')
+                return _res('cex', Z, t0, cex={'line': w, 'earlier_lines': G.relevant_history(w), 'query': 'generated %s line with 20 arguments' % label}, failed='generated printer line with 20 arguments is decoded wrongly')
     # empty argument list and the empty string
     for sent in (True, False):
         for args in (R.eps(), R.lit('""'), R.lit('"", ""'), R.lit('0, ""')):
@@ -371,8 +379,24 @@ def run_generated(case):
             r, w = Z.check([z3.InRe(x, Gl)], want_model_of=x)
             n += 1
             ok, text = G.compare(w)
+            hist.append(w)
             if not ok:
-                return _res('cex', Z, t0, cex={'line': w, 'query': 'generated line'}, failed='generated printer line is decoded wrongly')
+                return _res('cex', Z, t0, cex={'line': w, 'earlier_lines': G.relevant_history(w), 'query': 'generated line'}, failed='generated printer line is decoded wrongly')
+    # fixed-point values as the printer renders them (old dialect: %f of wl_fixed_to_double, i.e. six decimals, rounded; new: %d.%08d, exact):
+    # the value reported is the one the text denotes, to the last digit
+    fx = (['0.003906', '0.007812', '-0.003906', '0.996094', '123.996094', '-8388608.000000', '8388607.996094', '0.000000', '1.500000']
+          if dialect == 'old' else ['0.00390625', '-0.00390625', '0.99609375', '123.99609375', '-8388608.00000000', '8388607.99609375', '1.50000000'])
+    for sent in (True, False):
+        for f1 in fx:
+            Gl = Z.re(G.line(dialect, sent, queue, conn, mark=False, args=R.cat(R.lit(f1), R.lit(', 7'))), 'plain')
+            r, w = Z.check([z3.InRe(x, Gl)], want_model_of=x)
+            if r != 'sat':
+                return _res('unknown', Z, t0, detail='could not generate a line for fixed ' + f1)
+            n += 1
+            ok, text = G.compare(w)
+            hist.append(w)
+            if not ok:
+                return _res('cex', Z, t0, cex={'line': w, 'earlier_lines': G.relevant_history(w), 'query': 'generated line with fixed-point argument ' + f1}, failed='generated printer line (fixed-point argument) is decoded wrongly')
     return _res('ok', Z, t0, n=n, samples=[{'generated_lines_decoded_as_denoted': n, 'examples': samples}])
 
 
